@@ -5,7 +5,14 @@
      s <4 hex>   one byte pair into vbi_decode_caption(vbi, 284, .) (src/caption.c: field-2 routing,
                  xds_separator, xds_decoder)
      p <4 hex>   like `s`, additionally prints the events / programme info the service decoder
-                 announces (oracle only; the Lean driver does not implement it)
+                 announces (format of the round-2 model `Svc`)
+     q <4 hex>   like `s`; when a packet is delivered, additionally prints every event xds_decoder sends
+                 (E:...) and afterwards every field it can write: both vbi_program_info, the network,
+                 info_cycle[], aspect_source, the caption channel languages (model `Dec`)
+     extents2    sizeof of the character arrays xds_decoder writes, values of the caption ids
+     frame <n> [<id> <line> <4 hex>]*
+                 n sliced lines (exact-size heap array) into vbi_xds_demux_feed_frame(); prints the
+                 return value, the state digest and every packet delivered meanwhile
 
    `case n` destroys and re-creates both contexts.
 
@@ -48,12 +55,68 @@ static void o_str(const signed char *s)
 	o_hex((const uint8_t *) s, (int) strlen((const char *) s));
 }
 
-static int p_mode;
+static int p_mode;		/* 0 = s, 1 = p, 2 = q */
+static int h_delivered;
+
+/* pointer into language[8] -> index, NULL -> 0 */
+static char q_lang(const unsigned char *s)
+{
+	int l;
+	if (!s) return '0';
+	for (l = 0; l < 8; ++l)
+		if ((const char *) s == language[l]) return (char)('0' + l);
+	return 'x';
+}
+
+static void q_pi(const vbi_program_info *pi)
+{
+	int i;
+	o_printf(" pin=%d.%d.%d.%d td=%d len=%d:%d el=%d:%d:%d title=", pi->month, pi->day, pi->hour, pi->min,
+		 pi->tape_delayed, pi->length_hour, pi->length_min, pi->elapsed_hour, pi->elapsed_min, pi->elapsed_sec);
+	o_str(pi->title);
+	o_printf(" type=");
+	if (pi->type_classf == VBI_PROG_CLASSF_EIA_608) {
+		for (i = 0; i < 33 && pi->type_id[i]; ++i) o_printf("%02x", pi->type_id[i] & 255);
+		if (0 == i) o_printf("-");
+	} else o_printf("none");
+	o_printf(" rating=%d/%d/%d audio=%d.%c.%d.%c capsvc=%d caplang=", (int) pi->rating_auth, pi->rating_id,
+		 pi->rating_dlsv, (int) pi->audio[0].mode, q_lang(pi->audio[0].language), (int) pi->audio[1].mode,
+		 q_lang(pi->audio[1].language), pi->caption_services);
+	for (i = 0; i < 8; ++i) o_printf("%c", q_lang(pi->caption_language[i]));
+	o_printf(" cgms=%d asp=%d.%d.%d", pi->cgms_a, pi->aspect.first_line, pi->aspect.last_line,
+		 pi->aspect.ratio > 1.5 ? 2 : (pi->aspect.ratio > 0.5 ? 1 : 0));
+	for (i = 0; i < 8; ++i) { o_printf(" d%d=", i); o_str(pi->description[i]); }
+}
+
+static void q_cycle(int c)
+{
+	int i, any = 0;
+	for (i = 0; i < 32; ++i)
+		if (c & (1 << i)) { o_printf("%s%d", any ? "," : "", i); any = 1; }
+	if (!any) o_printf("-");
+}
+
+static void q_state(struct vbi_decoder *vbi)
+{
+	vbi_network *n = &vbi->network.ev.network;
+	int i;
+	o_printf(" S0"); q_pi(&vbi->prog_info[0]);
+	o_printf(" S1"); q_pi(&vbi->prog_info[1]);
+	o_printf(" SN name="); o_str(n->name);
+	o_printf(" call="); o_str(n->call);
+	o_printf(" cyc=%d nuid=%u td=%d SC cyc0=", n->cycle, n->nuid, n->tape_delay);
+	q_cycle(vbi->cc.info_cycle[0]);
+	o_printf(" cyc1=");
+	q_cycle(vbi->cc.info_cycle[1]);
+	o_printf(" asrc=%d lang=", vbi->aspect_source);
+	for (i = 0; i < 8; ++i) o_printf("%c", q_lang(vbi->cc.channel[i].language));
+}
 
 static void h_xds_hook(struct vbi_decoder *vbi, int _class, int type, uint8_t *buffer, int length)
 {
 	o_printf(" dec %d %d %d ", _class, type, length);
 	o_hex(buffer, length < 0 ? 0 : (length > 64 ? 64 : length));
+	h_delivered = 1;
 	xds_decoder_real(vbi, _class, type, buffer, length);
 }
 
@@ -76,6 +139,30 @@ static void ev_cb(vbi_event *ev, void *ud)
 {
 	(void) ud;
 	if (!p_mode) return;
+	if (2 == p_mode) {
+		switch (ev->type) {
+		case VBI_EVENT_PROG_INFO:
+			o_printf(" E:pi f=%d", (int) ev->ev.prog_info->future);
+			q_pi(ev->ev.prog_info);
+			break;
+		case VBI_EVENT_NETWORK:
+			o_printf(" E:net name="); o_str(ev->ev.network.name);
+			o_printf(" call="); o_str(ev->ev.network.call);
+			o_printf(" nuid=%u td=%d", ev->ev.network.nuid, ev->ev.network.tape_delay);
+			break;
+		case VBI_EVENT_NETWORK_ID:
+			o_printf(" E:netid");
+			break;
+		case VBI_EVENT_ASPECT:
+			o_printf(" E:asp %d.%d.%d", ev->ev.aspect.first_line, ev->ev.aspect.last_line,
+				 ev->ev.aspect.ratio > 1.5 ? 2 : (ev->ev.aspect.ratio > 0.5 ? 1 : 0));
+			break;
+		default:
+			o_printf(" E:other");
+			break;
+		}
+		return;
+	}
 	switch (ev->type) {
 	case VBI_EVENT_PROG_INFO: {
 		vbi_program_info *pi = ev->ev.prog_info;
@@ -141,6 +228,38 @@ static void op_d(const uint8_t *pair)
 	printf(" tc=%llu tk=%llu%s%s\n", tc, tk, oob ? " oob" : "", o_buf);
 }
 
+static void op_frame(void)
+{
+	_vbi_xds_subpacket *base = &xd->subpacket[0][0];
+	unsigned long long tc = 0, tk = 0;
+	unsigned i, n = VBI_XDS_MAX_CLASSES * VBI_XDS_MAX_SUBCLASSES;
+	long long cnt;
+	vbi_sliced *sl;
+	vbi_bool r;
+	if (h_ntok < 2 || !h_int(h_tok[1], &cnt) || cnt < 0 || cnt > 1000 || h_ntok != 2 + 3 * (int) cnt) {
+		printf("rej parse\n");
+		return;
+	}
+	sl = calloc(cnt ? (size_t) cnt : 1, sizeof *sl);	/* exact size: ASan sees a read past the frame */
+	if (!sl) exit(3);
+	for (i = 0; i < (unsigned) cnt; ++i) {
+		long long id, line; int len = 0; uint8_t *b;
+		if (!h_int(h_tok[2 + 3 * i], &id) || !h_int(h_tok[3 + 3 * i], &line) || id < 0 || line < 0 || id > 0xFFFFFFFFLL || line > 0xFFFFFFFFLL
+		    || !(b = h_hex(h_tok[4 + 3 * i], &len))) { printf("rej parse\n"); free(sl); return; }
+		if (len != 2) { printf("rej parse\n"); free(b); free(sl); return; }
+		sl[i].id = (uint32_t) id; sl[i].line = (uint32_t) line;
+		sl[i].data[0] = b[0]; sl[i].data[1] = b[1];
+		free(b);
+	}
+	o_len = 0; o_buf[0] = 0;
+	r = vbi_xds_demux_feed_frame(xd, sl, (unsigned) cnt);
+	free(sl);
+	for (i = 0; i < n; ++i) { tc += base[i].count; if (base[i].count) tk += base[i].checksum; }
+	printf("ok r=%d cur=", r ? 1 : 0);
+	if (xd->curr_sp) printf("%d", (int)(xd->curr_sp - base)); else printf("-");
+	printf(" tc=%llu tk=%llu%s\n", tc, tk, o_buf);
+}
+
 static void op_s(const uint8_t *pair)
 {
 	struct caption *cc = &vbi->cc;
@@ -150,7 +269,9 @@ static void op_s(const uint8_t *pair)
 	unsigned i, n = sizeof cc->sub_packet / sizeof cc->sub_packet[0][0];
 	int oob;
 	o_len = 0; o_buf[0] = 0;
+	h_delivered = 0;
 	vbi_decode_caption(vbi, 284, (uint8_t *) pair);
+	if (2 == p_mode && h_delivered) q_state(vbi);
 	oob = sp0 && cnt0 < 2 && (pair[0] & 0x7F) >= 0x20 && sp0->count > cnt0; /* a store happened at index count - 2 < 0 */
 	for (i = 0; i < n; ++i) { tc += base[i].count; if (base[i].count) tk += base[i].chksum; }
 	printf("ok cur=");
@@ -174,12 +295,22 @@ int main(void)
 			       (unsigned) (sizeof vbi->cc.sub_packet / sizeof vbi->cc.sub_packet[0]),
 			       (unsigned) (sizeof vbi->cc.sub_packet[0] / sizeof vbi->cc.sub_packet[0][0]),
 			       (int) VBI_XDS_CLASS_MISC);
-		} else if ((H_IS(0, "d") || H_IS(0, "s") || H_IS(0, "p")) && h_ntok == 2) {
+		} else if (H_IS(0, "extents2") && h_ntok == 1) {
+			printf("ok title=%u desc=%u type=%u name=%u call=%u f1=%u f2=%u c525=%u\n",
+			       (unsigned) sizeof vbi->prog_info[0].title, (unsigned) sizeof vbi->prog_info[0].description[0],
+			       (unsigned) (sizeof vbi->prog_info[0].type_id / sizeof vbi->prog_info[0].type_id[0]),
+			       (unsigned) sizeof vbi->network.ev.network.name, (unsigned) sizeof vbi->network.ev.network.call,
+			       (unsigned) VBI_SLICED_CAPTION_525_F1, (unsigned) VBI_SLICED_CAPTION_525_F2,
+			       (unsigned) VBI_SLICED_CAPTION_525);
+		} else if (H_IS(0, "frame")) {
+			op_frame();
+		} else if ((H_IS(0, "d") || H_IS(0, "s") || H_IS(0, "p") || H_IS(0, "q")) && h_ntok == 2) {
 			b = h_hex(h_tok[1], &len);
 			if (!b || len != 2) printf("rej parse\n");
 			else if (h_tok[0][0] == 'd') op_d(b);
-			else { p_mode = (h_tok[0][0] == 'p'); op_s(b); }
-		} else if (H_IS(0, "d") || H_IS(0, "s") || H_IS(0, "p") || H_IS(0, "extents")) printf("rej parse\n");
+			else { p_mode = (h_tok[0][0] == 'p') ? 1 : ((h_tok[0][0] == 'q') ? 2 : 0); op_s(b); }
+		} else if (H_IS(0, "d") || H_IS(0, "s") || H_IS(0, "p") || H_IS(0, "q") || H_IS(0, "extents")
+			   || H_IS(0, "extents2")) printf("rej parse\n");
 		else printf("rej op\n");
 		free(b);
 	}
